@@ -844,3 +844,59 @@ Proof.
 Qed.
 
 End GetFailures.
+
+(* ---------- a batch of bind contexts is the fold of the single-context step ---------- *)
+
+Section Batch.
+Variable eps : Z.
+
+(* everything but the resync queue *)
+Definition same_but_errq (a b : cache) : Prop :=
+  c_store a = c_store b /\ c_gone a = c_gone b /\ c_heap a = c_heap b /\ c_jobs a = c_jobs b /\
+  c_nodes a = c_nodes b /\ c_nodelist a = c_nodelist b /\ c_queues a = c_queues b /\
+  c_delq a = c_delq b /\ c_nattr a = c_nattr b.
+
+Lemma cache_with_errq a b : same_but_errq a b -> b = with_errq a (c_errq b).
+Proof. destruct a, b. unfold same_but_errq, with_errq. simpl. intros (-> & -> & -> & -> & -> & -> & -> & -> & ->). reflexivity. Qed.
+
+(* AddBindTask reads nothing of the resync queue, and the API outcome touches nothing else *)
+Lemma bind_task_errq_indep c q j t n ok :
+  same_but_errq (fst (bind_task eps (with_errq c q) j t n ok)) (fst (bind_task eps c j t n true)) /\
+  snd (bind_task eps (with_errq c q) j t n ok) = snd (bind_task eps c j t n true).
+Proof.
+  unfold bind_task.
+  replace (stored_task (with_errq c q) (Some j) t) with (stored_task c (Some j) t) by reflexivity.
+  change (c_jobs (with_errq c q)) with (c_jobs c). change (c_nodes (with_errq c q)) with (c_nodes c).
+  destruct (c_jobs c !! j) as [cj|]; [|repeat split; reflexivity].
+  destruct (stored_task c (Some j) t) as [st|]; [|repeat split; reflexivity].
+  destruct (c_nodes c !! n) as [ni|]; [|repeat split; reflexivity].
+  destruct (n_has_node ni); cbn [negb]; [|repeat split; reflexivity].
+  unfold job_set_status. cbn [fst snd].
+  destruct (node_add eps ni (set_status st Binding)) as [[ni' t2]|err]; [destruct ok|]; repeat split; reflexivity.
+Qed.
+
+(* Theorem (C08_bind_batch_is_fold): a batch of bind contexts leaves, in everything but the
+   order of the resync queue, the state the single-context step leaves when folded over the
+   batch, each context with its own outcome; and the per-context results are those of the fold *)
+Theorem bind_batch_is_fold l : forall c,
+  same_but_errq (fst (bind_batch eps c l))
+                (fold_left (fun c x => let '(j, t, n, f) := x in fst (bind_task eps c j t n (f =? 1))) l c).
+Proof.
+  intros c. unfold bind_batch.
+  assert (G : forall l (a b : cache) rs, same_but_errq a b ->
+     same_but_errq
+       (fst (fold_left (fun (acc : cache * list opres) x =>
+                 let '(j, t, n, _) := x in
+                 let '(c', r) := bind_task eps (fst acc) j t n true in (c', snd acc ++ [r])) l (a, rs)))
+       (fold_left (fun c x => let '(j, t, n, f) := x in fst (bind_task eps c j t n (f =? 1))) l b)).
+  { clear. induction l as [|[[[j t] n] f] l IH]; intros a b rs Hab; [exact Hab|]. simpl.
+    destruct (bind_task eps a j t n true) as [a1 r1] eqn:Ea. cbn [fst snd]. apply IH.
+    rewrite (cache_with_errq a b Hab).
+    destruct (bind_task_errq_indep a (c_errq b) j t n (f =? 1)) as [H _]. rewrite Ea in H. cbn [fst] in H.
+    destruct H as (A1 & A2 & A3 & A4 & A5 & A6 & A7 & A8 & A9). repeat split; congruence. }
+  specialize (G l c c [] ltac:(repeat split; reflexivity)).
+  destruct (fold_left _ l (c, [])) as [c1 rs]. cbn [fst snd] in *.
+  destruct G as (A1 & A2 & A3 & A4 & A5 & A6 & A7 & A8 & A9). repeat split; simpl; assumption.
+Qed.
+
+End Batch.
